@@ -238,6 +238,45 @@ func RunHostile(c HostileCase) (out *HOutcome) {
 		if err := r.Err(); err != nil {
 			out.Err = err.Error()
 		}
+	case "skim":
+		// a navigating caller: per container, a cheap deterministic choice (from Target, used as a seed) between
+		// skipping it, entering and reading it all, and entering and leaving after a few children
+		call = "skim"
+		h := uint64(c.Target)*0x9E3779B97F4A7C15 + 1
+		var walk func(d int, limit int)
+		walk = func(d int, limit int) {
+			seen := 0
+			for (limit < 0 || seen < limit) && next() {
+				seen++
+				t := r.Type()
+				r.FieldName()
+				r.Annotations()
+				switch t {
+				case ion.ListType, ion.SexpType, ion.StructType:
+					h = h*6364136223846793005 + 1442695040888963407
+					choice := (h >> 33) % 4
+					if r.IsNull() || d > 200 || choice == 0 {
+						continue // skip it
+					}
+					if r.StepIn() == nil {
+						if choice == 1 {
+							walk(d+1, -1)
+						} else {
+							walk(d+1, int((h>>40)%3))
+						}
+						r.StepOut()
+					}
+				case ion.StringType:
+					r.StringValue()
+				case ion.SymbolType:
+					r.SymbolValue()
+				}
+			}
+		}
+		walk(0, -1)
+		if err := r.Err(); err != nil {
+			out.Err = err.Error()
+		}
 	case "decode":
 		call = "Decoder.Decode"
 		d := ion.NewDecoder(r)
